@@ -13,6 +13,8 @@ Line-protocol driver for C19 (see harness/cmd/vh/c19.go for the Go side).
         day (whole-second instants inside the property's range only);  r: the exact
         model of ExcelDateToTime applied to the exact value of the stored float.
   dec <sys> <bits>      ExcelDateToTime on an arbitrary float64
+  encf <sys> <unixsec> <ns>   timeToExcelTime on the instant, float64 bit pattern of the result
+                        (model: `Impl.timeToExcelTimeF` instantiated with `Float`)
   civ <z>               day number → (y, m, d) → day number
   flg <jd>              Fliegel–Van Flandern
 -/
@@ -36,6 +38,15 @@ def ratOfBits (b : Nat) : Option Rat :=
     let q : Rat := if ex ≥ 1075 then ((m * 2 ^ (ex - 1075) : Nat) : Rat)
                    else ((m : Nat) : Rat) / ((2 ^ (1075 - ex) : Nat) : Rat)
     some (if sign = 1 then -q else q)
+
+/-- float64 instance of the operations of `timeToExcelTime` (C double arithmetic, as Go's) -/
+def floatOps : Impl.FloatOps Float where
+  ofInt n := if n ≥ 0 then n.toNat.toUInt64.toFloat else -((-n).toNat.toUInt64.toFloat)
+  add a b := a + b
+  div a b := a / b
+
+def hex16 (n : Nat) : String :=
+  String.ofList ((List.range 16).map fun i => hexDigit (n / 16 ^ (15 - i) % 16))
 
 def showCivil (c : Civil) : String :=
   s!"{c.y} {c.m} {c.d} {c.h} {c.mi} {c.s} {c.ns}"
@@ -103,6 +114,11 @@ def step (w : List String) : String :=
       | .ok t => "ok " ++ showCivil (civilOf t)
       | .error _ => "E_NEG"
     | none => "bad-op"
+  | ["encf", sys, sec, ns] =>
+    match parseInt? sec, parseInt? ns with
+    | some sec, some ns =>
+      hex16 (Impl.timeToExcelTimeF floatOps (sec * nsPerSec + ns) (sys = "1")).toBits.toNat
+    | _, _ => "bad-op"
   | ["civ", z] =>
     match parseInt? z with
     | some z =>
